@@ -179,3 +179,223 @@ Theorem bulk_compute_succeeds_refuted :
     snd (cstep false van nidx (fst (run false van nidx (ops ++ [PrepareAll qs]))) (ComputeAll b)) = OThrows StatusMismatch.
 Proof. exact Container4Proofs.bulk_compute_succeeds_refuted. Qed.
 Print Assumptions bulk_compute_succeeds_refuted.
+
+(** ** The exchange symmetries of a directly constructed TwoParticleGF, at the level of its specification
+       (PV.EDSpec.chi: the documented sum over the six orderings of the first three operators of sign * Lehmann sum
+       with the kernel phi, fourth operator at time 0; PV.ChiLehmann relates the library's term lists to it).
+       Proofs: PV.ChiSymmetryProofs.  With them the hypotheses swap12_law / swap34_law of the theorems above are
+       DISCHARGED for chi := chi_lehmann (PV.ChiSymmetry: EDSpec.chi on eigen-data, frequencies by Matsubara index):
+       the first for all data over any commutative ring, the second for regular data over any field
+       (PV.ChiSymmetry.regular: no fermionic denominator vanishes, the resonance tests of phi are exact on the
+       levels and frequencies that occur, a detected resonance has equal weights).  The general theorems above are
+       unchanged. *)
+Require Import Ring Field QArith Qcanon.
+From PV Require EDSpec GFIdentities.
+From PV Require Import ChiSymmetry ChiSymmetryProofs ChiSymmetryContainer ChiSymmetryExamples ChiSymmetryC.
+
+(** First exchange symmetry  chi_jikl(w2,w1;w3) = - chi_ijkl(w1,w2;w3):  every number type whose operations form a
+    commutative ring, all energies, weights, operator matrices (any shape), beta, tolerance, all frequencies
+    (real, complex, Matsubara or not).  Re-indexing of the sum over the six orderings. *)
+Theorem chi_spec_swap12 :
+  forall (K : Type) (NO : EDSpec.numops K),
+  ring_theory (EDSpec.n0 K NO) (EDSpec.n1 K NO) (EDSpec.nadd K NO) (EDSpec.nmul K NO) (EDSpec.nsub K NO)
+              (EDSpec.nopp K NO) (@eq K) ->
+  forall (beta tol : K) (E w : list K) (C1 C2 CX3 CX4 : list (list K)) (z1 z2 z3 : K),
+  EDSpec.chi K NO beta tol E w C2 C1 CX3 CX4 z2 z1 z3 =
+  EDSpec.nopp K NO (EDSpec.chi K NO beta tol E w C1 C2 CX3 CX4 z1 z2 z3).
+Proof. exact ChiSymmetryProofs.chi_spec_swap12. Qed.
+Print Assumptions chi_spec_swap12.
+
+(** The kernel identity behind the second symmetry (cyclicity of the trace in Lehmann form):
+    phi_ijkl(x,y,z) = - phi_lijk(u,x,y) for x + y + z + u = 0, in all four resonance patterns. *)
+Theorem phi_cyclic :
+  forall (K : Type) (NO : EDSpec.numops K) (kinv : K -> K),
+  field_theory (EDSpec.n0 K NO) (EDSpec.n1 K NO) (EDSpec.nadd K NO) (EDSpec.nmul K NO) (EDSpec.nsub K NO)
+               (EDSpec.nopp K NO) (EDSpec.ndiv K NO) kinv (@eq K) ->
+  (forall x, EDSpec.nabs K NO (EDSpec.nopp K NO x) = EDSpec.nabs K NO x) ->
+  forall beta tol Ei Ej Ek El wi wj wk wl x y z u : K,
+  EDSpec.nadd K NO (EDSpec.nadd K NO (EDSpec.nadd K NO x y) z) u = EDSpec.n0 K NO ->
+  EDSpec.nsub K NO (EDSpec.nadd K NO x Ei) Ej <> EDSpec.n0 K NO ->
+  EDSpec.nsub K NO (EDSpec.nadd K NO y Ej) Ek <> EDSpec.n0 K NO ->
+  EDSpec.nsub K NO (EDSpec.nadd K NO z Ek) El <> EDSpec.n0 K NO ->
+  EDSpec.nsub K NO (EDSpec.nadd K NO u El) Ei <> EDSpec.n0 K NO ->
+  res_ok K NO tol x y Ei Ek wi wk -> res_ok K NO tol y z Ej El wj wl ->
+  EDSpec.phi K NO beta tol Ei Ej Ek El wi wj wk wl x y z =
+  EDSpec.nopp K NO (EDSpec.phi K NO beta tol El Ei Ej Ek wl wi wj wk u x y).
+Proof. exact ChiSymmetryProofs.phi_cyclic. Qed.
+Print Assumptions phi_cyclic.
+
+(** Second exchange symmetry  chi_ijlk(w1,w2;w1+w2-w3) = - chi_ijkl(w1,w2;w3):  every number type whose operations
+    form a field, with |-x| = |x| and an exact "matrix element is non-zero" test; n x n operator matrices; data
+    regular at the four frequencies z1, z2, -z3, -(z1+z2-z3).  All energies incl. degenerate ones, all resonance
+    patterns, beta arbitrary.  No hypothesis relates the weights to the energies beyond "a detected resonance has
+    equal weights": the Boltzmann relation and e^{i w beta} = -1 are already inside the closed form of phi. *)
+Theorem chi_spec_swap34 :
+  forall (K : Type) (NO : EDSpec.numops K) (kinv : K -> K),
+  field_theory (EDSpec.n0 K NO) (EDSpec.n1 K NO) (EDSpec.nadd K NO) (EDSpec.nmul K NO) (EDSpec.nsub K NO)
+               (EDSpec.nopp K NO) (EDSpec.ndiv K NO) kinv (@eq K) ->
+  (forall x, EDSpec.nabs K NO (EDSpec.nopp K NO x) = EDSpec.nabs K NO x) ->
+  (forall x, EDSpec.nre_ltb K NO (EDSpec.n0 K NO) (EDSpec.nabs K NO x) = false -> x = EDSpec.n0 K NO) ->
+  forall (n : nat) (beta tol : K) (E w : list K) (C1 C2 CX3 CX4 : list (list K)) (z1 z2 z3 : K),
+  square K n C1 -> square K n C2 -> square K n CX3 -> square K n CX4 ->
+  regular K NO n tol E w (fset K NO z1 z2 z3) ->
+  EDSpec.chi K NO beta tol E w C1 C2 CX4 CX3 z1 z2 (EDSpec.nsub K NO (EDSpec.nadd K NO z1 z2) z3) =
+  EDSpec.nopp K NO (EDSpec.chi K NO beta tol E w C1 C2 CX3 CX4 z1 z2 z3).
+Proof. exact ChiSymmetryProofs.chi_spec_swap34. Qed.
+Print Assumptions chi_spec_swap34.
+
+(** The two laws of PV.Container4Spec for the Lehmann chi. *)
+Theorem chi_lehmann_swap12 :
+  forall (K : Type) (NO : EDSpec.numops K),
+  ring_theory (EDSpec.n0 K NO) (EDSpec.n1 K NO) (EDSpec.nadd K NO) (EDSpec.nmul K NO) (EDSpec.nsub K NO)
+              (EDSpec.nopp K NO) (@eq K) ->
+  forall D : edata K, swap12_law K (EDSpec.nopp K NO) (chi_lehmann K NO D).
+Proof. exact ChiSymmetryProofs.chi_lehmann_swap12. Qed.
+Print Assumptions chi_lehmann_swap12.
+
+Theorem chi_lehmann_swap34 :
+  forall (K : Type) (NO : EDSpec.numops K) (kinv : K -> K),
+  field_theory (EDSpec.n0 K NO) (EDSpec.n1 K NO) (EDSpec.nadd K NO) (EDSpec.nmul K NO) (EDSpec.nsub K NO)
+               (EDSpec.nopp K NO) (EDSpec.ndiv K NO) kinv (@eq K) ->
+  (forall x, EDSpec.nabs K NO (EDSpec.nopp K NO x) = EDSpec.nabs K NO x) ->
+  (forall x, EDSpec.nre_ltb K NO (EDSpec.n0 K NO) (EDSpec.nabs K NO x) = false -> x = EDSpec.n0 K NO) ->
+  forall (n : nat) (D : edata K), edata_regular K NO n D ->
+  swap34_law K (EDSpec.nopp K NO) (chi_lehmann K NO D).
+Proof. exact ChiSymmetryProofs.chi_lehmann_swap34. Qed.
+Print Assumptions chi_lehmann_swap34.
+
+(** The container theorems for the Lehmann chi with BOTH symmetries discharged (regular eigen-data). *)
+Theorem alias_denotes_lehmann :
+  forall (K : Type) (NO : EDSpec.numops K) (kinv : K -> K),
+  field_theory (EDSpec.n0 K NO) (EDSpec.n1 K NO) (EDSpec.nadd K NO) (EDSpec.nmul K NO) (EDSpec.nsub K NO)
+               (EDSpec.nopp K NO) (EDSpec.ndiv K NO) kinv (@eq K) ->
+  (forall x, EDSpec.nabs K NO (EDSpec.nopp K NO x) = EDSpec.nabs K NO x) ->
+  (forall x, EDSpec.nre_ltb K NO (EDSpec.n0 K NO) (EDSpec.nabs K NO x) = false -> x = EDSpec.n0 K NO) ->
+  forall (n : nat) (D : edata K), edata_regular K NO n D ->
+  (forall q, entry_denotes K (kscale K NO) (chi_lehmann K NO D) (perm_at set_owner_perm_index) q q) /\
+  (forall req pos idx, In (req, pos, idx) set_aliases ->
+     forall q, alias_cond q req = true ->
+     entry_denotes K (kscale K NO) (chi_lehmann K NO D) (perm_at idx) q (alias_key q pos)).
+Proof. exact ChiSymmetryContainer.alias_denotes_lehmann. Qed.
+Print Assumptions alias_denotes_lehmann.
+
+Theorem eval_sound_lehmann :
+  forall (K : Type) (NO : EDSpec.numops K) (kinv : K -> K),
+  field_theory (EDSpec.n0 K NO) (EDSpec.n1 K NO) (EDSpec.nadd K NO) (EDSpec.nmul K NO) (EDSpec.nsub K NO)
+               (EDSpec.nopp K NO) (EDSpec.ndiv K NO) kinv (@eq K) ->
+  (forall x, EDSpec.nabs K NO (EDSpec.nopp K NO x) = EDSpec.nabs K NO x) ->
+  (forall x, EDSpec.nre_ltb K NO (EDSpec.n0 K NO) (EDSpec.nabs K NO x) = false -> x = EDSpec.n0 K NO) ->
+  forall (n : nat) (D : edata K), edata_regular K NO n D ->
+  forall (fixed : bool) (van : quad -> bool) (nidx : nat) (ops : list cop) (q : quad) (t : triple)
+         (sg : Z) (q0 : quad) (t0 : triple),
+  eval_out fixed van nidx (fst (run fixed van nidx ops)) q t = OVal sg q0 t0 ->
+  kscale K NO sg (chi_lehmann K NO D q0 t0) = chi_lehmann K NO D q t.
+Proof. exact ChiSymmetryContainer.eval_sound_lehmann. Qed.
+Print Assumptions eval_sound_lehmann.
+
+Theorem container_refines_spec_lehmann :
+  forall (K : Type) (NO : EDSpec.numops K) (kinv : K -> K),
+  field_theory (EDSpec.n0 K NO) (EDSpec.n1 K NO) (EDSpec.nadd K NO) (EDSpec.nmul K NO) (EDSpec.nsub K NO)
+               (EDSpec.nopp K NO) (EDSpec.ndiv K NO) kinv (@eq K) ->
+  (forall x, EDSpec.nabs K NO (EDSpec.nopp K NO x) = EDSpec.nabs K NO x) ->
+  (forall x, EDSpec.nre_ltb K NO (EDSpec.n0 K NO) (EDSpec.nabs K NO x) = false -> x = EDSpec.n0 K NO) ->
+  forall (n : nat) (D : edata K), edata_regular K NO n D ->
+  forall (van : quad -> bool) (nidx : nat) (ops : list cop) (q : quad) (t : triple),
+  qfind q (snd (run true van nidx ops)) = Some Computed ->
+  exists sg q0 t0,
+    cstep true van nidx (fst (run true van nidx ops)) (Eval q t) = (fst (run true van nidx ops), OVal sg q0 t0) /\
+    kscale K NO sg (chi_lehmann K NO D q0 t0) = chi_lehmann K NO D q t.
+Proof. exact ChiSymmetryContainer.container_refines_spec_lehmann. Qed.
+Print Assumptions container_refines_spec_lehmann.
+
+Theorem listed_elements_evaluable_lehmann :
+  forall (K : Type) (NO : EDSpec.numops K) (kinv : K -> K),
+  field_theory (EDSpec.n0 K NO) (EDSpec.n1 K NO) (EDSpec.nadd K NO) (EDSpec.nmul K NO) (EDSpec.nsub K NO)
+               (EDSpec.nopp K NO) (EDSpec.ndiv K NO) kinv (@eq K) ->
+  (forall x, EDSpec.nabs K NO (EDSpec.nopp K NO x) = EDSpec.nabs K NO x) ->
+  (forall x, EDSpec.nre_ltb K NO (EDSpec.n0 K NO) (EDSpec.nabs K NO x) = false -> x = EDSpec.n0 K NO) ->
+  forall (n : nat) (D : edata K), edata_regular K NO n D ->
+  forall (van : quad -> bool) (nidx : nat) (ops : list cop) (b : bool) (st' : cstate),
+  cstep true van nidx (fst (run true van nidx ops)) (ComputeAll b) = (st', OUnit) ->
+  forall q t, isInContainer st' q = true ->
+  exists sg q0 t0, cstep true van nidx st' (Eval q t) = (st', OVal sg q0 t0) /\
+                   kscale K NO sg (chi_lehmann K NO D q0 t0) = chi_lehmann K NO D q t.
+Proof. exact ChiSymmetryContainer.listed_elements_evaluable_lehmann. Qed.
+Print Assumptions listed_elements_evaluable_lehmann.
+
+(** ... and with only the first one discharged: commutative ring, ALL eigen-data, no regularity; the second
+    symmetry stays a hypothesis, now about the Lehmann chi. *)
+Theorem eval_sound_lehmann_swap12_discharged :
+  forall (K : Type) (NO : EDSpec.numops K),
+  ring_theory (EDSpec.n0 K NO) (EDSpec.n1 K NO) (EDSpec.nadd K NO) (EDSpec.nmul K NO) (EDSpec.nsub K NO)
+              (EDSpec.nopp K NO) (@eq K) ->
+  forall D : edata K, swap34_law K (EDSpec.nopp K NO) (chi_lehmann K NO D) ->
+  forall (fixed : bool) (van : quad -> bool) (nidx : nat) (ops : list cop) (q : quad) (t : triple)
+         (sg : Z) (q0 : quad) (t0 : triple),
+  eval_out fixed van nidx (fst (run fixed van nidx ops)) q t = OVal sg q0 t0 ->
+  kscale K NO sg (chi_lehmann K NO D q0 t0) = chi_lehmann K NO D q t.
+Proof. exact ChiSymmetryContainer.eval_sound_lehmann_swap12_discharged. Qed.
+Print Assumptions eval_sound_lehmann_swap12_discharged.
+
+(** ** Non-vacuity on exact numbers (PV.ChiSymmetryExamples): canonical rationals, the Hubbard atom (mu = 1, U = 3:
+       E = (0,-1,-1,1), weights (2,4,4,1)/11, beta = 1, tolerance 1/1000, c_i / c^+_i = EDSpec.op_matrix on two modes),
+       stand-in frequencies 7(2m+1)/2; the regularity hypothesis is decided by an evaluated checker.  The symmetric
+       pair of values is non-zero.  Triples: resonant (n1 + n2 = -1, n1 = n3: both resonant branches of phi occur)
+       and generic. *)
+Theorem swap12_applies :
+  chi_lehmann Qc QcNum hub (1, 0, 1, 0)%nat (0, -1, 0)%Z = Qcopp (chi_lehmann Qc QcNum hub (0, 1, 1, 0)%nat (-1, 0, 0)%Z) /\
+  this (chi_lehmann Qc QcNum hub (1, 0, 1, 0)%nat (0, -1, 0)%Z) = (57836 # 299475)%Q /\
+  this (chi_lehmann Qc QcNum hub (0, 1, 1, 0)%nat (-1, 0, 0)%Z) = (-57836 # 299475)%Q.
+Proof. exact ChiSymmetryExamples.swap12_applies. Qed.
+Print Assumptions swap12_applies.
+
+Theorem swap34_applies_resonant :
+  chi_lehmann Qc QcNum hub (0, 1, 0, 1)%nat (0, -1, -1)%Z = Qcopp (chi_lehmann Qc QcNum hub (0, 1, 1, 0)%nat (0, -1, 0)%Z) /\
+  this (chi_lehmann Qc QcNum hub (0, 1, 1, 0)%nat (0, -1, 0)%Z) = (-26816 # 299475)%Q /\
+  this (chi_lehmann Qc QcNum hub (0, 1, 0, 1)%nat (0, -1, -1)%Z) = (26816 # 299475)%Q.
+Proof. exact ChiSymmetryExamples.swap34_applies_resonant. Qed.
+Print Assumptions swap34_applies_resonant.
+
+Theorem swap34_applies_generic :
+  chi_lehmann Qc QcNum hub (0, 1, 0, 1)%nat (1, 0, -1)%Z = Qcopp (chi_lehmann Qc QcNum hub (0, 1, 1, 0)%nat (1, 0, 2)%Z) /\
+  this (chi_lehmann Qc QcNum hub (0, 1, 1, 0)%nat (1, 0, 2)%Z) = (6372064 # 3527271605)%Q /\
+  this (chi_lehmann Qc QcNum hub (0, 1, 0, 1)%nat (1, 0, -1)%Z) = (-6372064 # 3527271605)%Q.
+Proof. exact ChiSymmetryExamples.swap34_applies_generic. Qed.
+Print Assumptions swap34_applies_generic.
+
+(** ** The regularity hypothesis holds for genuine data (PV.ChiSymmetryC): Coquelicot's complex numbers with the true
+       modulus (EDSpec at GFIdentities.CNum), real energies and weights, fermionic Matsubara frequencies
+       i (2m+1) pi / beta, a positive tolerance that is at most 2 pi / beta and separates the levels, equal weights on
+       equal levels -- at EVERY Matsubara index triple.  Uses the classical real numbers of the standard library
+       (see Print Assumptions). *)
+Theorem matsubara_edata_regular :
+  forall (n : nat) (beta tolr : Rdefinitions.R) (e wr : list Rdefinitions.R),
+  Rdefinitions.Rlt (Rdefinitions.IZR 0) beta -> Rdefinitions.Rlt (Rdefinitions.IZR 0) tolr ->
+  Rdefinitions.Rle tolr (Rdefinitions.Rdiv (Rdefinitions.Rmult (Rdefinitions.IZR 2) Rtrigo1.PI) beta) ->
+  (forall a b, (a < n)%nat -> (b < n)%nat ->
+     Rdefinitions.Rlt (Rbasic_fun.Rabs (Rdefinitions.Rminus (nth a e (Rdefinitions.IZR 0)) (nth b e (Rdefinitions.IZR 0)))) tolr ->
+     nth a e (Rdefinitions.IZR 0) = nth b e (Rdefinitions.IZR 0) /\
+     nth a wr (Rdefinitions.IZR 0) = nth b wr (Rdefinitions.IZR 0)) ->
+  forall Cm CXm : nat -> list (list Complex.C),
+  (forall i, square Complex.C n (Cm i)) -> (forall i, square Complex.C n (CXm i)) ->
+  edata_regular Complex.C GFIdentities.CNum n
+    {| ed_beta := Complex.RtoC beta; ed_tol := Complex.RtoC tolr;
+       ed_E := map Complex.RtoC e; ed_w := map Complex.RtoC wr; ed_C := Cm; ed_CX := CXm;
+       ed_freq := fermi beta |}.
+Proof. exact ChiSymmetryC.matsubara_edata_regular. Qed.
+Print Assumptions matsubara_edata_regular.
+
+(** The Hubbard atom over C with Gibbs weights e^{-E}/Z, beta = 1, tolerance 1/1000 (PV.ChiSymmetryC.hubC) is regular,
+    so for it NO hypothesis about chi is left in the container theorem. *)
+Theorem hubC_regular : edata_regular Complex.C GFIdentities.CNum 4%nat hubC.
+Proof. exact ChiSymmetryC.hubC_regular. Qed.
+Print Assumptions hubC_regular.
+
+Theorem eval_sound_hubC :
+  forall (fixed : bool) (van : quad -> bool) (nidx : nat) (ops : list cop) (q : quad) (t : triple)
+         (sg : Z) (q0 : quad) (t0 : triple),
+  eval_out fixed van nidx (fst (run fixed van nidx ops)) q t = OVal sg q0 t0 ->
+  kscale Complex.C GFIdentities.CNum sg (chi_lehmann Complex.C GFIdentities.CNum hubC q0 t0) =
+  chi_lehmann Complex.C GFIdentities.CNum hubC q t.
+Proof. exact ChiSymmetryC.eval_sound_hubC. Qed.
+Print Assumptions eval_sound_hubC.
